@@ -509,6 +509,16 @@ func (fv *FuncVerifier) execIf(st *State, env *Env, x *ast.IfStmt) []Outcome {
 		}
 		st = outs[0].st
 	}
+	// short-circuit evaluation matters when the right operand has effects (`if i > 0 && !yield(sep) { return }`):
+	//   if A && B {T} else {E}  ==  if A { if B {T} else {E} } else {E}
+	//   if A || B {T} else {E}  ==  if A {T} else { if B {T} else {E} }
+	if be, ok := ast.Unparen(x.Cond).(*ast.BinaryExpr); ok && (be.Op == token.LAND || be.Op == token.LOR) && fv.hasEffectfulCall(env, be.Y) {
+		inner := &ast.IfStmt{If: x.If, Cond: be.Y, Body: x.Body, Else: x.Else}
+		if be.Op == token.LAND {
+			return fv.execIf(st, env, &ast.IfStmt{If: x.If, Cond: be.X, Body: &ast.BlockStmt{Lbrace: x.Body.Lbrace, List: []ast.Stmt{inner}, Rbrace: x.Body.Rbrace}, Else: x.Else})
+		}
+		return fv.execIf(st, env, &ast.IfStmt{If: x.If, Cond: be.X, Body: x.Body, Else: inner})
+	}
 	c := fv.eval(st, env, x.Cond)
 	var outs []Outcome
 	thenSt := st.Clone()
@@ -522,6 +532,48 @@ func (fv *FuncVerifier) execIf(st *State, env *Env, x *ast.IfStmt) []Outcome {
 		outs = append(outs, Outcome{st: elseSt, kind: okNormal})
 	}
 	return fv.mergeNormals(outs)
+}
+
+// hasEffectfulCall: e contains a call that may have effects (anything but conversions, builtins, spec functions and
+// methods/functions the engine treats as pure observers is assumed to).
+func (fv *FuncVerifier) hasEffectfulCall(env *Env, e ast.Expr) bool {
+	found := false
+	ast.Inspect(e, func(n ast.Node) bool {
+		if found {
+			return false
+		}
+		switch c := n.(type) {
+		case *ast.FuncLit:
+			return false
+		case *ast.CallExpr:
+			if tv, ok := env.info.Types[c.Fun]; ok && (tv.IsType() || tv.IsBuiltin()) {
+				return true
+			}
+			switch callee := calleeOf(env.info, c).(type) {
+			case *types.Func:
+				if isSpecName(callee.Name()) {
+					return true
+				}
+				if fi := fv.prog.ByObj[callee.Origin()]; fi != nil && fi.Contr != nil && fi.Contr.Has("pure", 0) {
+					return true
+				}
+				if callee.Pkg() != nil && !strings.HasPrefix(callee.Pkg().Path(), repoModule) {
+					full := callee.FullName()
+					if o := callee.Origin(); o != nil {
+						full = o.FullName()
+					}
+					if _, has := externs[full]; !has && externPolicy(callee.Pkg().Path(), full) == "pure" {
+						return true
+					}
+				}
+				found = true
+			default:
+				found = true // function value (yield, callback)
+			}
+		}
+		return true
+	})
+	return found
 }
 
 // mergeNormals joins the normal outcomes of a branching statement into one state (keeps path count linear).
@@ -2096,6 +2148,13 @@ func (fv *FuncVerifier) evalIterator(st *State, env *Env, e ast.Expr) iterInfo {
 			if fi, ok := fv.prog.ByObj[fn.Origin()]; ok && fi.Contr != nil && (fi.Contr.Has("yields", 0) || (returnedLit(fv, fi) > 0 && fi.Contr.Has("yields", returnedLit(fv, fi)))) {
 				v := fv.evalCall(st, env, call)
 				return iterInfo{val: v[0], pure: true, contract: true}
+			}
+			// an iterator handed out by a /repo INTERFACE method whose (assumed) contract says `iterator`: running it only
+			// calls the loop body; what it yields is unconstrained
+			if ic := fv.prog.IfaceContracts[ifaceKey(fn)]; ic != nil && ic.Has("iterator", 0) {
+				v := fv.evalCall(st, env, call)
+				fv.calleesUsed[ic.Key+" (interface method, contract ASSUMED for every implementation)"] = true
+				return iterInfo{val: v[0], pure: true}
 			}
 			// an iterator handed out by a /repo function whose contract has a `preserves` frame, and which returns
 			// only literals (on which that frame is proved as units) or iterators of functions with the same frame:
